@@ -1,5 +1,5 @@
 """Manifest prose per property."""
-HOOK_COMMITS = ["b5085ab"]
+HOOK_COMMITS = ["b5085ab", "847d5d3", "8b8737f"]
 NOTES = ("Technique family: machine-checked proof in Lean 4. Every check = (P) lake build of the property's theorem module + "
          "#print axioms audit + forbidden-construct scan, and (T) the model/implementation correspondence streams, rebuilt from "
          "/repo's working tree on every run. A broken proof or correspondence is reported as a violation; the direct oracles "
@@ -41,5 +41,29 @@ TEXT = {
         "level_note": "Trusted: Lean kernel; the hand-written model's fidelity is checked, not assumed (exhaustive + random differential on len, raw storage, exported bytes). Not proved in Lean: byte export (as_slice/write_to_byte_slice) = packBytes abs (compared only); little-endian target assumed for to_ne_bytes.",
         "technique": "Lean 4 refinement proof (pointwise BitVec.getMsbD invariants) + exhaustive/differential model-code correspondence",
         "design_ref": "DESIGN.md section 3 C11, section 2 M1",
+    },
+    "C08": {
+        "level_text": "Proof. C08_residual / C08_subframe / C08_header / C08_frame (incl. 8 | length) / C08_streaminfo / C08_stream: for every well-formed component (unbounded sizes) the reported count equals the length of the written bit string; C08_utf8 for every number < 2^36; necessity examples show each well-formedness clause used is needed. C08_through_sinks_{residual,subframe,frame,stream}: composed with the sink refinement of C11, both in-memory sinks end with exactly `count` bits holding exactly `bits`. Precomputed frames: Frame.opsPrecomputed writes the same bytes (C12_frame_ops_precomputed). Model tied to bitrepr.rs by the comp stream and by re-serialising every decoded real stream.",
+        "level_note": "Well-formedness is what the constructors/verify establish (C18_*_sound) and what the encoder produces (checked on every stream record).",
+        "technique": "Lean 4 theorems (structural induction over the component tree) + differential correspondence on count/length/bytes/operation list",
+        "design_ref": "DESIGN.md section 3 C08",
+    },
+    "C12": {
+        "level_text": "Proof. The operation sequence every write issues (Model/Ops.lean) is proved to denote exactly the component's bit string (C12_residual_ops, _subframe_ops, _header_ops, _frame_ops, _frame_ops_precomputed, _streaminfo_ops, _stream_ops) and to consist of valid operations only; C12_failing_sink: for every k, a sink failing on its k-th call makes write return the sink error with exactly the first k operations accepted, whose ideal bits are a prefix of the correct bitstream (C12_subframe, C12_frame, C12_stream instances). The operation list is tied to the code by comparing it with what a recording sink receives; the absence of unwrap/panic on the error path is decided by enumerating every k on the real code (all subframe types, headers, whole streams with and without precomputed frames).",
+        "level_note": "The model has no panic outcome for write: that part of the property is decided by the enumeration on the real code, in both cargo profiles.",
+        "technique": "Lean 4 theorems over the operation-list model + fail-at-every-k enumeration against the real code",
+        "design_ref": "DESIGN.md section 3 C12",
+    },
+    "C13": {
+        "level_text": "Proof. C13_optimal: for every residual (values in (-2^31,2^31), length < 2^16), warm-up and maximum parameter <= 14, the mirrored search (u32 arithmetic, chunked/saturating cost tables, merge, packed minimiser) returns a choice inside the search space and no choice of the space is cheaper, whenever the optimum is below the saturation value 2^28-1; the reported code_bits is then the true cost. C13_emitted: the same without side condition for any residual whose chosen cost is below 2^28-1 (every emitted residual, by C09). C13_total: the search never hits a panic site. C13_optimal_edge / C13_saturation_edge_counterexample delimit the one case where the literal threshold 'below 2^28' fails (optimum exactly 2^28-1 with a single partition), replayed on the real code.",
+        "level_note": "The property text says 'below 2^28'; the theorem needs 'below 2^28-1' (strictly below the saturation value). The gap is a single value, unreachable for emitted residuals (they cost less than verbatim < 2^20 bits); documented in DESIGN.md section 4 as an observation, not a defect.",
+        "technique": "Lean 4 proof of the table invariant (saturated true cost) through from_errors/merge/minimizer and of the order loop + differential correspondence (exact mirror and cost) + brute-force oracle",
+        "design_ref": "DESIGN.md section 3 C13",
+    },
+    "C14": {
+        "level_text": "Proof. C14_le_roundtrip(_list): little-endian packing then sign-extending unpacking is the identity for every k in 1..4 and every value inside k bytes; C14_fill: filling the frame buffer from packed bytes equals filling it from integers, including which inputs are rejected; C14_channel_slice / C14_stale_independent: what the encoder reads from the buffer is the de-interleaved input and does not depend on the buffer's previous contents (full block followed by a shorter one), for every channel count; C14_context: the MD5/sample-count context advances identically (also the multi-thread context, which converts integers to bytes first); C14_fill_accepts: the shape invariant is preserved so fills iterate.",
+        "level_note": "That identical buffer + context give identical bytes is the functional character of the encoder (C09 functional correspondence, C10); additionally every stream record is encoded through both delivery modes and compared.",
+        "technique": "Lean 4 theorems over a mirror of deinterleave / LE conversion / FrameBuf fills + kernel-level differential correspondence + two-source stream comparison",
+        "design_ref": "DESIGN.md section 3 C14",
     },
 }
